@@ -125,7 +125,7 @@ NOT_APPLICABLE = {
     "C12": "Whether the row scans in groupings.py compute the partition the unit definitions prescribe, for every pointer graph and row order, is a property of a data-dependent algorithm over runtime values; it needs execution or model checking, not static analysis (DESIGN.md §6). Structural by-products are decided under C15, C17 and C20.",
 }
 PENDING = {}
-FIX_COMMITS = ["1135a11", "9ad2ff2", "e1b99c2", "0b25963", "db055f3", "373c6a3"]
+FIX_COMMITS = ["1135a11", "9ad2ff2", "e1b99c2", "0b25963", "db055f3", "373c6a3", "f64a0f5"]
 
 
 def main():
